@@ -122,6 +122,23 @@ def R2_discriminators(run):
 
 
 VIEW_OF = {mm: anchor for mm, anchor, _, _ in PAIRS_LAYOUT}
+# write-back functions that are straight-line on the reference tree (confirmed by reading)
+UNCONDITIONAL = [
+    MM + "whirlpool::MemoryMappedWhirlpool::update_liquidity_and_reward_growth_global",
+    MM + "whirlpool::MemoryMappedWhirlpool::set_liquidity",
+    MM + "whirlpool::MemoryMappedWhirlpool::set_reward_growth_global",
+    MM + "whirlpool::MemoryMappedWhirlpool::set_reward_last_updated_timestamp",
+    MM + "position::MemoryMappedPosition::update",
+    MM + "position::MemoryMappedPosition::set_reward_infos",
+    MM + "tick_array::tick::MemoryMappedTick::update",
+    "state::whirlpool::Whirlpool::update_rewards",
+    "state::whirlpool::Whirlpool::update_rewards_and_liquidity",
+    "state::whirlpool::Whirlpool::reset_protocol_fees_owed",
+    "state::position::Position::update",
+    "state::position::Position::update_reward_owed",
+    "state::position::Position::reset_fees_owed",
+    "state::tick::Tick::update",
+]
 
 
 def _anchor_field_ty(facts, anchor, name):
@@ -186,6 +203,23 @@ def R3_accessors(run):
                 run.check("R3", "encode:%s.%s" % (short, fn.name), encs == {want}, "setter %s::%s encodes with %s but the Anchor field is %s" % (short, fn.name, sorted(encs), aty),
                           loc=fn.loc(), detail="%s::to_le_bytes" % aty)
     run.floor("R3", "accessors and setters", n, 35)
+    # write-backs apply on every path: each store and each call to a sibling setter of these functions runs whenever the function
+    # returns (a "nothing changed" early return would leave the other values of the same update unwritten)
+    for path in UNCONDITIONAL:
+        fn = facts.fn(path)
+        if fn is None:
+            run.missing("R3", "unconditional@" + path, "function %s not found" % path)
+            continue
+        run.touch(fn)
+        eff = [(w["block"], "self.%s := .." % w["field"]) for w in writes.field_stores(facts) if w["fn"] is fn and w["kind"] == "assign"]
+        for bi, t in fn.calls():
+            pth = callee_path(t) or ""
+            g = facts.fn(pth)
+            if g is not None and g.self_ty and g.self_ty == fn.self_ty and g.name.startswith(("set_", "update", "reset_")) and not fn.blocks[bi]["c"]:
+                eff.append((bi, g.name + "(..)"))
+        skipped = sorted({d for b, d in eff if cfg.success_reach(fn, 0, cut_blocks=[b])})
+        run.check("R3", "unconditional@" + path, bool(eff) and not skipped, "%s can return without %s" % (path, ", ".join(skipped) or "any write"), loc=fn.loc(),
+                  detail="%d write-backs, each on every path" % len(eff))
     # name-copy rule
     copies = [MM + "tick_array::tick::MemoryMappedTick::update", MM + "position::MemoryMappedPosition::update",
               "state::tick::Tick::update", "state::position::Position::update",
